@@ -50,7 +50,7 @@ CLAIMED.update({
         text="Seeded histories with TTLs and cutoffs rewritten on the wire around the height the receiving wallet last observed; the oracle predicts from the pre-state (per-account observed heights) whether each receive/pay/finalize must be refused, must not be refused for expiry, or is left open, and checks after every successful refresh that exactly the wallet's own outstanding entries whose cutoff the tip has reached are cancelled with their inputs released.",
         tech="deterministic simulation: on-the-wire cutoff rewriting relative to observed height, refusal/release oracle"),
     "C19": dict(cat="exploration", ref="DESIGN.md §3 C19",
-        text="Model-based checking inside a stateful simulation: logs are produced by real histories under a virtual clock that jumps both ways (equal timestamps, creation order != id order, confirmation before creation), queries are aimed exactly at stored values, and every answer is compared with a three-valued reference filter written from the field documentation (required / forbidden / left open). The query-argument dimension is seeded sampling (labelled partial scope).",
+        text="Model-based checking inside a stateful simulation: logs are produced by real histories under a virtual clock that jumps both ways (equal timestamps, creation order != id order, confirmation before creation), queries are aimed exactly at stored values, and every answer is compared with a three-valued reference filter written from the field documentation (required / forbidden / left open); direction-only criteria keep cancelled entries of that direction (cancellation has its own criterion), and direction-only queries are aimed at the cancelled entries a history left in the log. The query-argument dimension is seeded sampling (labelled partial scope).",
         tech="deterministic simulation with virtual clock: reference-model (three-valued filter) comparison of every query answer"),
 })
 
